@@ -11,30 +11,33 @@ CLAIM = dict(
          "its sequence of writes, source(span) copies, indent()/newline()/inc()/dec() calls; an interpreter carrying "
          "the indent state and the `indented` flag and performing the byte-offset slicing with an explicit panic "
          "outcome; doc-comment line splitting and trimming) composed with the C12 lexer/parser models. Proved for "
-         "EVERY document the parser model accepts and the printer with the three repairs of hooks/fix-c13-*.patch: "
-         "parse_wf (every leaf of the tree is the source text at its span; no empty variant/record/flags/enum/tuple), "
-         "print_no_panic, print_tokens_roundtrip (all node classes up to whole documents: the token stream the "
-         "printed pieces denote is parsed back -- via the C12 completeness theorem -- to a tree equal to the original "
-         "up to source positions and doc-comment line splitting), print_idempotent at token level (printing that "
-         "tree out of the printed text gives the same pieces), nothing_dropped, and the layout half of render_lex "
-         "(blanks, line feeds, doc lines, doc-comment attachment, byte offsets, fuel). The remaining half of "
-         "render_lex -- scan_token at each token boundary returns the intended token -- is a hypothesis of the "
-         "text-level theorem print_roundtrip_partial. The three defects of the unrepaired printer are refuted by "
-         "vm_compute witnesses (targets keyword omitted; non-final `...` printed without comma; blank doc line "
-         "printed then dropped), each replayed on the real code on every run. The model is tied to the code by a "
-         "byte-for-byte correspondence of the printed text on ~4.5k documents (grammar-generated with randomised "
-         "layout and comments, every .wac file of the repository and re-laid-out copies, a probe per construct), "
-         "and the specification predicate (re-parse succeeds, normalised trees equal, second print identical) is "
-         "evaluated on the real parser/printer for each of them.",
+         "EVERY document the parser model accepts and the printer with the three repairs (now in /repo): parse_wf, "
+         "print_no_panic, print_tokens_roundtrip (all node classes up to whole documents, via the C12 completeness "
+         "theorem), print_idempotent at token level, nothing_dropped, print_screen (the printed text passes "
+         "screening), and render_lex_partial / print_roundtrip_partial: lexing the printed text gives exactly the "
+         "token stream (kinds, texts, byte spans, doc comments) the printer meant, hence Document::parse of the "
+         "printed text returns a tree equal to the original up to source positions and doc-comment line splitting "
+         "and printing it again reproduces the text byte for byte -- under ONE decidable side condition on the "
+         "printed pieces (an identifier spelled like a keyword is directly followed by the colon), which is vacuous "
+         "unless the source contains the lexer's keyword-before-colon artefact (`record: func()`), is proved to "
+         "hold whenever no identifier token is spelled like a keyword (render_lex_plain_idents / "
+         "print_roundtrip_plain_idents: unconditional text-level theorems for those sources) and is evaluated on "
+         "every document of every run. The proof covers the layout (blanks, line feeds, doc lines, offsets, fuel) "
+         "and every token boundary: what follows each token (for all trees), stability of every scanner of the "
+         "lexer model under replacement of the following text (identifiers incl. %-escapes and dangling dashes, "
+         "strings, package names/paths with versions), keywords and symbols. The three defects of the unrepaired "
+         "printer are refuted by vm_compute witnesses. The model is tied to the code by a byte-for-byte "
+         "correspondence of the printed text on ~4.5k documents per run, and the specification predicate (re-parse "
+         "succeeds, normalised trees equal, second print identical) is evaluated on the real parser/printer.",
     design_ref="DESIGN.md §5 C13, §7 items 4, 5, 13, §8",
     note="Trusted: Coq kernel; extraction (ExtrOcamlBasic); OCaml driver; Rust harness (incl. its span-stripping/"
          "doc-normalising canonicaliser, cross-checked against the extracted `sn` on every case); Printer.v is "
          "hand-written from printer.rs and validated by correspondence; Lexer.v/Parser.v as in C12. Not proved: "
-         "the per-token boundary facts of render_lex (covered by the correspondence: the model's re-parse lexes "
-         "the printed text, and the real lexer does the same).",
-    technique="Coq proof (printer commands vs tree-indexed grammar, via the C12 soundness/completeness theorems and "
-              "the lexer tiling lemma) + extracted-model correspondence + specification predicate evaluated on the "
-              "implementation")
+         "that the side condition kwcb holds for sources with a keyword-spelled identifier token (needs the grammar "
+         "position of that token); checked at run time on every case.",
+    technique="Coq proof (printer commands vs tree-indexed grammar via the C12 soundness/completeness theorems; "
+              "lexer tiling and scan-origin lemmas; scanner stability; syntactic adjacency of printed tokens) + "
+              "extracted-model correspondence + specification predicate evaluated on the implementation")
 
 # The three printer defects known at design time, each confirmed on the real code. Until the main session moves them
 # into /verif/known-findings.json (or applies hooks/fix-c13-*.patch) they are consulted from here (BUILDING.md).
@@ -180,6 +183,7 @@ def run(res, tier, seed, replay):
     # ---- 3. evaluation
     kinds, accepted, rejected, nontrivial = {}, 0, 0, 0
     prop_fail, disagreements, excused = [], [], {f: 0 for f in FEATURES}
+    side_false = []
     feature_counts = {f: 0 for f in FEATURES}
     repaired_model_fail = []
     seen_trees = set()
@@ -211,6 +215,8 @@ def run(res, tier, seed, replay):
             continue
         mtree, mt_rep, mv_rep, mt_cur, mv_cur = mf[1], dec(mf[2]), mf[3], mf[4], mf[5]
         mt_cur = mt_rep if mt_cur == "=" else dec(mt_cur)
+        if len(mf) > 6 and mf[6] != "kwc=1":
+            side_false.append((c, i, m, "side condition kwcb of render_lex_partial is false for this document"))
         if o.tree1 not in seen_trees:
             seen_trees.add(o.tree1)
             if '"statements":[{' in o.tree1:
@@ -264,6 +270,7 @@ def run(res, tier, seed, replay):
         correspondence_cases=accepted, evaluations=len(cases), case_kinds=kinds, accepted_documents=accepted,
         rejected_documents=rejected, disagreements=len(disagreements), spec_failures_on_impl=len(prop_fail),
         excused_by_known_finding=excused, documents_with_feature=feature_counts,
+        render_lex_side_condition_false=len(side_false),
         repairs_present_in_implementation=repaired_in_impl, known_signatures=sorted(known),
         distinct_nontrivial=nontrivial, distinct_trees_containing=constructs,
         rule="documents generated from the grammar (all productions the parser accepts, depth <= 6) with randomised "
@@ -281,9 +288,8 @@ def run(res, tier, seed, replay):
             "the harness's strip_norm (spans -> @0+0, docs -> non-empty trimmed lines) implements spec/PrintSpec.v `sn`; "
             "checked on every case against the extracted `sn` of the parser model's tree",
             "Rust str::lines / str::trim modelled by Printer.rust_lines / Lexer.trim (Unicode White_Space table)",
-            "render_lex is proved only as far as stated in props/C13.v (layout half); the token-boundary half is "
-            "covered by the correspondence (the re-parse of the printed text is run on the real lexer and on the "
-            "lexer model)",
+            "render_lex is proved under the decidable side condition kwcb (props/C13.v); the condition is evaluated "
+            "by the extracted model on every case (coverage key render_lex_side_condition_false)",
             "serde / serde_json serialisation of the AST and miette::SourceSpan (canonicalised by the harness)"]))
     res.assumptions = ["source texts are valid UTF-8 (Rust &str); the model works on Unicode scalar values",
                        "DocumentPrinter is used with space = None (four blanks), as everywhere in the repository",
@@ -314,6 +320,11 @@ def run(res, tier, seed, replay):
                                implementation_text=getattr(Obs(i), "text1", None),
                                model_text=(dec(mf[2]) if len(mf) > 4 and mf[4] == "=" else dec(mf[4]) if len(mf) > 4 else m[:200]),
                                n=len(disagreements)), no_input=True)
+        elif side_false:
+            c, i, m, what = side_false[0]
+            f = c.split("\t")
+            res.violation(dict(kind="theorem-hypothesis-unmet", what=what, case=c, origin=f[2], source=dec(f[3])),
+                          no_input=True)
         elif repaired_model_fail:
             c, i, m, what = repaired_model_fail[0]
             f = c.split("\t")
